@@ -345,11 +345,11 @@ def r6_masking_cursor(ctx, rep):
 
 
 RULES = [
-    RuleSpec("C03.R1", r1_one_docstring_read, "one docstring read and one registration per declaration", floor=10),
-    RuleSpec("C03.R2", r2_marker_length, "marker-length agreement between sibling implementations", floor=9),
+    RuleSpec("C03.R1", r1_one_docstring_read, "one docstring read and one registration per declaration", floor=8),
+    RuleSpec("C03.R2", r2_marker_length, "marker-length agreement between sibling implementations", floor=4),
     RuleSpec("C03.R3", r3_declared_types, "settings fields used at their declared type", floor=1),
-    RuleSpec("C03.R4", r4_metadata_split, "metadata split before rendering", floor=4),
+    RuleSpec("C03.R4", r4_metadata_split, "metadata split before rendering", floor=2),
     RuleSpec("C03.R5", r5_index_after_delete, "no list index reused after deletion (admonitions)", floor=1),
-    RuleSpec("C03.R6", r6_shared_values_copied, "per-statement values are copied per variable", floor=3),
-    RuleSpec("C03.R7", r7_meta_key_guard, "metadata continuation needs an open key", floor=2),
+    RuleSpec("C03.R6", r6_shared_values_copied, "per-statement values are copied per variable", floor=1),
+    RuleSpec("C03.R7", r7_meta_key_guard, "metadata continuation needs an open key", floor=1),
 ]
